@@ -133,6 +133,33 @@ func main() {
 		ips2, _ := tables.Candidates(cfg, ops2)
 		r.Do("t6c", append([]string{cfg.Tok(), "0", tables.IPsTok(ips2)}, ops2...)...)
 	}
+	// the three deadlines: every accepted ordering, equal, tiny and huge values; purges straddling each cutoff for an
+	// address offline by ageing and by IPv4 supersession (notifications: offline once when it ages, nothing when removed)
+	nDl := 5
+	if r.Thorough() {
+		nDl = 100
+	}
+	for _, dc := range tables.DeadlineCfgs() {
+		for i := 0; i < nDl; i++ {
+			ops := g.DeadlineHistory(dc)
+			r.Do("t6", append([]string{dc.Tok(), "0"}, ops...)...)
+			ops2 := g.DeadlineHistory(dc)
+			ips2, _ := tables.Candidates(dc, ops2)
+			r.Do("t6c", append([]string{dc.Tok(), "0", tables.IPsTok(ips2)}, ops2...)...)
+			r.Stat("class.deadlines", 1)
+		}
+	}
+	// large tables under the discipline: one MAC above 32 / 64 / 128 addresses (more than the channel holds), 150 MACs
+	for _, n := range []int{40, 130} {
+		var ops []string
+		for _, o := range g.ManyAddrsHistory(n, true) {
+			if o != "S" {
+				ops = append(ops, o)
+			}
+		}
+		r.Do("t6", append([]string{cfg.Tok(), "0"}, ops...)...)
+		r.Stat("class.many-addresses-per-mac", 1)
+	}
 	// learned names over all four attributes, identical repeats through every source
 	for i := 0; i < nName; i++ {
 		ops := g.NameRepeatHistory()
